@@ -84,7 +84,7 @@ func c14Directed(rng *RNG) []Case {
 	}
 	// F42: a child manifest re-pushed under an opaque media type BEFORE any tag leads to it (allowed), then tagged
 	// through an index that lists it as an image: its layers must stay (the statement: everything a tagged manifest
-	// transitively references remains retrievable), but the reachability walk follows the stored media type only
+	// transitively references remains retrievable), but the reachability walk followed the stored media type only (repaired: it now also reads the child as the parent declares it)
 	{
 		m1, i1 := byName["m1"], byName["i1"]
 		lines := []string{"mem init 1"}
